@@ -136,7 +136,7 @@ def main():
             na.append({"property_id": pid, "reason": NOT_YET.get(pid, "check not built yet in this commit (construction order in DESIGN.md §5); not claimed until its check exists")})
     m = {
         "version": 1,
-        "setup_cmd": "cd /verif/harness && CARGO_NET_OFFLINE=true cargo build --bin rzmq-verif",
+        "setup_cmd": "cd /verif/harness && CARGO_NET_OFFLINE=true cargo build --bin rzmq-verif && CARGO_NET_OFFLINE=true cargo build --bin rzmq-verif --features uring --target-dir /verif/target/uring",
         "hooks": {
             "guard": "--cfg rzmq_verif",
             "enable": "harness/.cargo/config.toml sets rustflags = [\"--cfg\", \"rzmq_verif\"]; the harness depends on rzmq by path (/repo/core), so every ./check rebuilds rzmq from /repo's working tree with the hooks compiled in",
